@@ -584,10 +584,15 @@ def check(run: lib.Run, audit: dict) -> int:
     ok_wpy, detail_wpy = (False, "skipped: compile could not be translated") if wc_failed or not isinstance(wc, dict) else translated_whole_vs_python(run)
     run.obligation("compile translated whole evaluates like the real compile(policy)(env) (pytolean_closure + Model/PyIdent.lean vs CPython)",
                    ok_wpy or wc_failed or not isinstance(wc, dict), detail_wpy)
-    run_cases(run, audit, scale=run.boost * (1 if ok_tr and ok_wh else 2))
+    # where the compiled function is INSTALLED and USED: `__init__` / `_recompute_etag` assign `_compiled` from the current policy whenever the
+    # compiler is importable, `_decide_async` returns the compiled function's answer and falls back to the interpreters only when it is
+    # absent or raises (the comparison with CPython is C09's)
+    from props import c09
+    ok_dec, _, detail_dec = c09.decide_obligation(run, audit, differential=False)
+    run_cases(run, audit, scale=run.boost * (1 if ok_tr and ok_wh and ok_dec else 2))
     overlap_check(run, (120 if run.tier == "quick" else 1500) * run.boost)
     violations = []
-    if (run.disagreements or not ok_tr or not ok_wh) and not run.spec_failures:
+    if (run.disagreements or not ok_tr or not ok_wh or not ok_dec) and not run.spec_failures:
         run_cases(run, audit, scale=4)
     if run.spec_failures:
         path = run.write_replay("spec", {"what": "C03 violated on the real engine", "case": run.spec_failures[0], "count": len(run.spec_failures)})
@@ -605,6 +610,14 @@ def check(run: lib.Run, audit: dict) -> int:
                                                "the widened search found no failing input",
                                                "translation": {k: v for k, v in wc.items() if k != "lean"} if isinstance(wc, dict) else wc,
                                                "lean": detail_wh[-1500:], "first_disagreement": run.disagreements[:1]})
+        violations.append((path, False))
+    elif not ok_dec:
+        path = run.write_replay("obligation", {"what": "per-run obligation Rbacx/Run/C09_decide_translated.lean no longer checks: the translated source of "
+                                               "Guard.__init__ / _recompute_etag / _decide_async is not proved to install the compiler's answer on the "
+                                               "current policy as `_compiled` and to return the compiled function's answer (interpreters only when it is "
+                                               "absent or raises) — where theorems Rbacx.C03.* (compiled = interpreted) meet the engine; the widened search "
+                                               "found no failing input",
+                                               "lean": detail_dec[-1500:], "first_disagreement": run.disagreements[:1]})
         violations.append((path, False))
     elif run.disagreements:
         path = run.write_replay("correspondence", {"what": "model Rbacx.compiledDecide/guardEval and the engine disagree on the decision; theorems Rbacx.C03.* no "
